@@ -1,12 +1,13 @@
 #!/bin/bash
-# seed_import.sh <Cxx> : copies /tmp/mut/<Cxx>/MUTATIONS/{A,B} into /verif/seeded/<Cxx>-{a,b}/ and records
+# seed_import.sh <Cxx> [ab|cd] : copies /tmp/mut/<Cxx>/MUTATIONS/{A,B} into /verif/seeded/<Cxx>-{a,b}/ and records
 # where the demonstration goes and how it is run (parsed from the README the sub-agent wrote).
 set -u
 P=$1
+MAP=${2:-ab}   # second round: "cd" (A -> c, B -> d)
 for V in A B; do
   S=/tmp/mut/$P/MUTATIONS/$V
   [ -f "$S/patch.diff" ] || continue
-  v=$(echo $V | tr AB ab)
+  v=$(echo $V | tr AB "$MAP")
   T=/verif/seeded/$P-$v
   mkdir -p "$T"
   cp "$S/patch.diff" "$T/patch.diff"
